@@ -1106,7 +1106,50 @@ func (te *TemplateEngine) cloneParagraphProperties(source *ParagraphProperties) 
 		}
 	}
 
+	// 复制段落边框
+	if source.ParagraphBorder != nil {
+		props.ParagraphBorder = &ParagraphBorder{
+			Top:    cloneParagraphBorderLine(source.ParagraphBorder.Top),
+			Left:   cloneParagraphBorderLine(source.ParagraphBorder.Left),
+			Bottom: cloneParagraphBorderLine(source.ParagraphBorder.Bottom),
+			Right:  cloneParagraphBorderLine(source.ParagraphBorder.Right),
+		}
+	}
+
+	// 复制网格对齐、分页控制和大纲级别
+	if source.SnapToGrid != nil {
+		props.SnapToGrid = &SnapToGrid{Val: source.SnapToGrid.Val}
+	}
+	if source.KeepNext != nil {
+		props.KeepNext = &KeepNext{Val: source.KeepNext.Val}
+	}
+	if source.KeepLines != nil {
+		props.KeepLines = &KeepLines{Val: source.KeepLines.Val}
+	}
+	if source.PageBreakBefore != nil {
+		props.PageBreakBefore = &PageBreakBefore{Val: source.PageBreakBefore.Val}
+	}
+	if source.WidowControl != nil {
+		props.WidowControl = &WidowControl{Val: source.WidowControl.Val}
+	}
+	if source.OutlineLevel != nil {
+		props.OutlineLevel = &OutlineLevel{Val: source.OutlineLevel.Val}
+	}
+
 	return props
+}
+
+// cloneParagraphBorderLine 复制段落边框线
+func cloneParagraphBorderLine(source *ParagraphBorderLine) *ParagraphBorderLine {
+	if source == nil {
+		return nil
+	}
+	return &ParagraphBorderLine{
+		Val:   source.Val,
+		Color: source.Color,
+		Sz:    source.Sz,
+		Space: source.Space,
+	}
 }
 
 // cloneRun 深度复制文本运行
